@@ -10,4 +10,4 @@ Extraction "c16_model.ml"
   url_parse url_print canon forbidden hard_forbidden
   hexlify unhexlify claim_id_of_hash hash_of_claim_id
   embed extract_payload media_step
-  fee_address fee_address_bytes sig_run sig_to_bytes sig_of_env.
+  fee_address fee_address_bytes sig_run sig_to_bytes sig_of_env claim_view.
